@@ -344,8 +344,10 @@ class ParseTreeMap(Generic[ClassType1, ObjType1, ClassType2, ObjType2]):
         rule1: AbstractRule[ClassType1, ObjType1],
         rule2: AbstractRule[ClassType2, ObjType2],
     ) -> ObjType2:
-        # If atom, we return the minimum object of the corresponding rule.
-        if not rule1.children:
+        # If atom, we return the minimum object of the corresponding rule. The
+        # isomorphism check also matches an atom with a class that is merely
+        # equivalent to an atom, so either side can be the one without children.
+        if not rule1.children or not rule2.children:
             return ParseTreeMap._min_object(rule2)
 
         assert isinstance(rule1, Rule) and isinstance(rule2, Rule)
